@@ -9,6 +9,7 @@ import (
 	"github.com/emitter-io/emitter/internal/event"
 	"github.com/emitter-io/emitter/internal/event/crdt"
 	"github.com/emitter-io/emitter/internal/message"
+	"github.com/weaveworks/mesh"
 	"pgregory.net/rapid"
 )
 
@@ -203,6 +204,35 @@ func checkReplica(st *event.State, model lww, universe []event.Event) string {
 		}
 		if seenAll != perType[typ] || seenActive != wantActive {
 			return fmt.Sprintf("subset %d: Range visits %d entries (%d active), model %d (%d active)", typ, seenAll, seenActive, perType[typ], wantActive)
+		}
+	}
+	// per-peer views (prefix scans over the live entries): what a broker walks when a peer comes online / goes away
+	for _, peer := range []uint64{1, 2, 3} {
+		wantS, wantC := map[string]bool{}, map[string]bool{}
+		for _, ev := range universe {
+			m := model[mkey(ev)]
+			if !(m.add != 0 && m.add >= m.del) {
+				continue
+			}
+			switch e := ev.(type) {
+			case *event.Subscription:
+				if e.Peer == peer {
+					wantS[e.Key()] = true
+				}
+			case *event.Connection:
+				if e.Peer == peer {
+					wantC[e.Key()] = true
+				}
+			}
+		}
+		gotS, gotC := map[string]bool{}, map[string]bool{}
+		st.SubscriptionsOf(mesh.PeerName(peer), func(s *event.Subscription) { gotS[s.Key()] = true })
+		st.ConnectionsOf(mesh.PeerName(peer), func(c *event.Connection) { gotC[c.Key()] = true })
+		if fmt.Sprint(gotS) != fmt.Sprint(wantS) {
+			return fmt.Sprintf("SubscriptionsOf(peer %d) yields %d live subscriptions, model %d", peer, len(gotS), len(wantS))
+		}
+		if fmt.Sprint(gotC) != fmt.Sprint(wantC) {
+			return fmt.Sprintf("ConnectionsOf(peer %d) yields %d live connections, model %d", peer, len(gotC), len(wantC))
 		}
 	}
 	// the subscription iterator decodes every stored subscription key
